@@ -428,6 +428,11 @@ func (u *Unit) wfFacts(s *State, t string, ty types.Type, depth int) []string {
 		}
 	case *types.Interface:
 		out = append(out, fmt.Sprintf("(=> (= (ityp %s) T_nil) (= (ival %s) boxnil))", t, t))
+		if n, ok := ty.(*types.Named); ok && n.Obj().Pkg() != nil && n.Obj().Pkg().Path() == "reflect" && n.Obj().Name() == "Type" {
+			// reflect.Type values are type identities boxed in the (opaque) *rtype
+			bx, ub := u.w.boxFn("TypeTag")
+			out = append(out, fmt.Sprintf("(=> (distinct (ityp %s) T_nil) (and (= (ityp %s) %s) (= (%s (%s (ival %s))) (ival %s))))", t, t, u.w.opaqueTag("*reflect.rtype", 22), bx, ub, t, t))
+		}
 	}
 	return out
 }
